@@ -34,11 +34,15 @@ func CompileLuaChunk(source string, s ast.BlockStat) (kidx uint, consts []ir.Con
 
 type compiler struct {
 	*ir.CodeBuilder
+	expDepth int // current depth of nested expression compilation
 }
 
 func (c *compiler) NewChild(name string) *compiler {
 	return &compiler{
 		CodeBuilder: c.CodeBuilder.NewChild(name),
+		// A function body is compiled while its parent is in the middle of
+		// compiling an expression
+		expDepth: c.expDepth,
 	}
 }
 
